@@ -148,9 +148,10 @@ CHECKS["C17"] = {
     "rule": ("enumeration: 21 operations (GetStats, GetAvailable, DropPeer, GetPeer, GetPeers, GetKnown, GetKnowns, GetConf, SetConf, Request with/without wait, withdraw, Have, BadPeer, AddKnown, NewPeer, tor.Announce, Kill, Reader.Read blocked/complete, InfoComplete) x stop position {loop already stopped; stop queued before the call's event; call queued before the stop (must be served); stop and call simultaneous (repeated); context cancelled before / simultaneously} x {0,1,5 peers} x {0,2 blocked readers} x event queue {empty, 400 deep, full}. Queue positions are arranged exactly by parking the loop inside a handler (harness-owned reply channel) and verified by len(Event) at the parked cut. "
              "Distinct = the enumeration cell; every cell is non-trivial (the stop actually happened)."),
     "assumptions": E3_ASSUME + ["'returns' is judged in virtual time: a call that has not returned one virtual hour after the stop is a hang; goroutine exit is checked by synctest at the end of every bubble (a leaked goroutine crashes the child and is attributed to the case)"],
-    "min": {"distinct_nontrivial": {"quick": 1000, "thorough": 1000}, "counters": {"calls_checked": 1000, "calls_served": 200, "calls_refused_dead": 200, "connections_seen_closed": 500}},
+    "min": {"distinct_nontrivial": {"quick": 1000, "thorough": 1000}, "counters": {"calls_checked": 1000, "calls_served": 200, "calls_refused_dead": 200, "connections_seen_closed": 500, "webseed_fetches_abandoned_at_deletion": 4}},
     "exhaustive_note": "the (operation x stop position x peers x readers x queue depth) table is enumerated completely in every run",
     "parts": [{"name": "lifecycle", "pkg": "c17_lifecycle", "netns": "isolated", "race": False, "shards": 16},
+              {"name": "webseed-stop", "pkg": "c17_lifecycle", "netns": "loopback", "race": False, "shards": 8},
               {"name": "lifecycle-race", "pkg": "c17_lifecycle", "netns": "isolated", "race": True, "shards": 16, "tiers": ["thorough"]}],
     "technique": "runtime monitor with fault enumeration: every API x every stop position arranged deterministically through the parked mailbox in a synctest bubble; bounded return in virtual time; post-mortem checks (unlisted, connections closed, readers fail, memory released, goroutines exited)",
     "level_text": "Every exported blocking operation is crossed with every position of the event loop's stop, with peers, blocked readers and pending events, inside a virtual-time bubble where 'does not hang' is decidable and leaked goroutines are detected by synctest. The enumeration is complete for the listed dimensions.",
